@@ -72,6 +72,17 @@ MF(n, k, tag, masked) == MFWith(n, k, V(tag, MFTable[k][3]), masked, V(tag + 101
 RegField(n, idx, tag, f, l) ==
   El(n, [T |-> "MatchField", Class |-> <<0, 1>>, Field |-> <<idx>>, HasMask |-> TRUE, Value |-> V(tag, 4), Mask |-> BitsToBytes(f..l, 4)],
      <<New(Nm(n, 0), "NewNXRange", <<f, l>>), New(n, "NewRegMatchField", <<idx, V(tag, 4), Ref(Nm(n, 0))>>)>>)
+\* a field built with the generic builder NewMatchField(name, data, window...) (MatchBuilder.tla states its meaning): the data bits
+\* dbits (bit positions, the highest one present so that the one-argument form implies the same width) placed at bit `start`
+SetMax(S) == CHOOSE x \in S : \A y \in S : y <= x
+GenField(n, name, dbits, start, form) ==
+  LET W == WidthOf(name)  nb == SetMax(dbits) + 1
+      vbits == {start + i : i \in dbits}
+      data == BitsToBytes(dbits, 8)  pre == BitsToBytes(vbits, 8)
+      args == CASE form = "plain" -> <<name, data>> [] form = "start" -> <<name, data, start>> [] form = "range" -> <<name, data, start, nb>>
+                [] form = "shift" -> <<name, data, start, nb, 1>> [] form = "noshift" -> <<name, pre, start, nb, 0>> IN
+  El(n, MFTree(name, BitsToBytes(IF form = "plain" THEN dbits ELSE vbits, W), form # "plain", BitsToBytes(start..(start + nb - 1), W)),
+     <<New(n, "NewMatchFieldU64", args)>>)
 HdrField(n, name, hm) ==
   El(n, [T |-> "FieldHeader", Class |-> BE16(ClassOf(name)), Field |-> <<FieldOf(name)>>, HasMask |-> hm,
          Length |-> <<WidthOf(name) * (1 + Bool01(hm))>>],
